@@ -23,8 +23,9 @@ RULES = {
     'R12': 'looking a key up does not change the map: the lookup/get functions of all three implementations store to no map or node field and call no list mutator, allocator or release function (an iteration in progress follows those links)',
     'R13': 'a notifier is not looked at after its callback was called: in every loop that walks a notifier list and calls the callbacks, no field of the notifier and no link of its list element is read on the way from the call to the next iteration (the callback may have unregistered - freed - its own notifier); the trie, whose notifiers are reference counted, holds a reference instead',
     'R14': 'the removal marker goes with the entry: a trie node can outlive its entry (as an inner node, or because notifiers are registered on it), so the function that takes the entry out of a node (stores no value into it) leaves the node unmarked on every path - a node left marked as removed is taken by the next put of that key for an entry that parked iterators still hold: DELETED and FREE are announced for a key and a value that do not exist',
+    'R15': 'a removed entry is gone for the dictionary operations even while an iterator still pins its node (= C18.R8): every lookup by key (get, put, rm) accepts a node only if it is not marked removed, and a removal marks or unlinks',
 }
-FLOORS = {'R1': 3, 'R2': 6, 'R3': 6, 'R4': 6, 'R5': 9, 'R6': 3, 'R7': 4, 'R8': 3, 'R9': 1, 'R10': 3, 'R11': 1, 'R12': 6, 'R13': 4, 'R14': 1}
+FLOORS = {'R15': 2, 'R1': 3, 'R2': 6, 'R3': 6, 'R4': 6, 'R5': 9, 'R6': 3, 'R7': 4, 'R8': 3, 'R9': 1, 'R10': 3, 'R11': 1, 'R12': 6, 'R13': 4, 'R14': 1}
 
 MAPS = {
     'hashtable': dict(file='lib/hashtable.c', create='qb_hashtable_create', rm='hashtable_rm_with_hash', put='hashtable_put',
@@ -70,6 +71,14 @@ def run(ctx):
     r11(ctx)
     r12(ctx)
     r14(ctx)
+    # R15 = C18.R8: an entry that was removed while an iterator pins its node is gone as far as get / put / rm / count are concerned:
+    # a lookup by key accepts only nodes that are not marked removed
+    from rules import c18
+    sub = type(ctx)(ctx.prog, ctx.prop, ctx.tier, ctx.depth)
+    c18.r8(sub)
+    for r in sub.results:
+        r['rule'] = 'R15'
+        ctx.results.append(r)
 
 
 def _present_atom(name, f, node_vars):
